@@ -33,14 +33,25 @@ type speaker struct {
 func ident(s string) string { return s }
 
 func storedOTLP(l []ir.Label) []ir.Label { // names sanitised, values untouched (writer/utils/unmarshal/otlplogs.go)
-	out := make([]ir.Label, len(l))
-	for i, x := range l {
-		out[i] = ir.Label{Name: ir.SanitizeName(x.Name), Value: x.Value}
+	var out []ir.Label
+	for _, x := range l {
+		if x.Name == "__ttl_days__" { // removed by the row builder for every protocol
+			continue
+		}
+		out = append(out, ir.Label{Name: ir.SanitizeName(x.Name), Value: x.Value})
 	}
 	return out
 }
 
-func storedAsIs(l []ir.Label) []ir.Label { return append([]ir.Label{}, l...) }
+func storedAsIs(l []ir.Label) []ir.Label {
+	var out []ir.Label
+	for _, x := range l {
+		if x.Name != "__ttl_days__" {
+			out = append(out, x)
+		}
+	}
+	return out
+}
 
 var speakers = []speaker{
 	{Name: "loki_json_stream_values", P: ir.LokiJSON, Opt: ir.Opt{Layout: 0}, MapName: ident, Stored: ir.Sanitized},
@@ -372,6 +383,16 @@ func runPartA(r *ev.Run) {
 	names, values := universe(r.Thorough())
 	sets := labelSetsUpTo3(names, values)
 	a.sets = len(sets)
+	// part a2 first: it is the smaller product, and on a loaded machine the internal deadline then cuts the tail of the
+	// label-set product instead of all of a2
+	if names, ctxs, err := ir.SpecialNames(ev.Repo()); err == nil {
+		a.special = names
+		r.Extra["a2_special_label_names_collected_from_source"] = names
+		r.Extra["a2_context_values_collected_from_source"] = ctxs
+	} else {
+		ev.Fatal("cannot collect the special label names from the decoder sources: %v", err)
+	}
+	runPartA2(r, a)
 	for _, set := range sets {
 		if r.Expired() {
 			break // internal deadline (loaded machine): exhaustive:false, exit 0
@@ -390,14 +411,6 @@ func runPartA(r *ev.Run) {
 			}
 		}
 	}
-	if names, ctxs, err := ir.SpecialNames(ev.Repo()); err == nil {
-		a.special = names
-		r.Extra["a2_special_label_names_collected_from_source"] = names
-		r.Extra["a2_context_values_collected_from_source"] = ctxs
-	} else {
-		ev.Fatal("cannot collect the special label names from the decoder sources: %v", err)
-	}
-	runPartA2(r, a)
 	r.Extra["a_label_sets"] = a.sets
 	r.Extra["a_names"] = names
 	vq := make([]string, len(values))
